@@ -1403,21 +1403,19 @@ static void Pack24(rfbClientPtr cl,
     uint32_t *buf32;
     uint32_t pix;
     int r_shift, g_shift, b_shift;
+    rfbBool swap = !cl->screen->serverFormat.bigEndian != !fmt->bigEndian;
 
     buf32 = (uint32_t *)buf;
 
-    if (!cl->screen->serverFormat.bigEndian == !fmt->bigEndian) {
-        r_shift = fmt->redShift;
-        g_shift = fmt->greenShift;
-        b_shift = fmt->blueShift;
-    } else {
-        r_shift = 24 - fmt->redShift;
-        g_shift = 24 - fmt->greenShift;
-        b_shift = 24 - fmt->blueShift;
-    }
+    /* the pixel is brought to host order first: "24 - shift" is only right for byte-aligned shifts */
+    r_shift = fmt->redShift;
+    g_shift = fmt->greenShift;
+    b_shift = fmt->blueShift;
 
     while (count--) {
         pix = *buf32++;
+        if (swap)
+            pix = Swap32(pix);
         *buf++ = (char)(pix >> r_shift);
         *buf++ = (char)(pix >> g_shift);
         *buf++ = (char)(pix >> b_shift);
